@@ -1,11 +1,12 @@
 #!/bin/sh
 # tools/seeded.sh   re-run every stored seeded change (seeded/<id>/patch.diff) against all checks on a scratch copy
 # of /repo's current tree; prints which rules report each one. Exit 0 iff every applicable seed is reported.
+# tools/seeded.sh Cxx   only the seeds of one property
 set -u
 HERE=$(cd "$(dirname "$0")/.." && pwd)
 export GOFLAGS=-mod=mod GOPROXY=off GOSUMDB=off GOTOOLCHAIN=local GOWORK=off
 bad=0
-for d in "$HERE"/seeded/*/; do
+for d in "$HERE"/seeded/${1:-}*/; do
   id=$(basename "$d")
   T=$(mktemp -d /tmp/ucanseeded.XXXXXX)
   mkdir -p "$T/repo" "$T/out"
